@@ -157,6 +157,11 @@ func isLoopIndex(v ssa.Value) bool {
 
 func c01(r *Run) {
 	w := r.W
+	// parallel == sequential additionally rests on the executor's conflict edges and on the view's equality oracle
+	defer func() {
+		r.importRules(c08, "C08.R2", "C08.R3")
+		r.importRules(c04, "C04.R3", "C04.R4")
+	}()
 	r.rule("C01.R1", "K3", "tasks never mutate the fee manager; Consume is sequential and its ok edge dominates the task's queueing", 3)
 	r.rule("C01.R2", "K5", "view scope == conflict keys at every Executor.Run site in package chain", 2)
 	r.rule("C01.R3", "K18", "tasks write shared captured variables only as a per-iteration result slot or under the designated mutex", 8)
